@@ -8,7 +8,7 @@ def run(chk):
                 "program(batch) == batch::concat_b(program(sample_b)), program(x with batch 1) == program(B copies of x); incompatible batch "
                 "sizes must be rejected; exact on integer data; both backends. Non-trivial = accepted call; distinct = distinct lines.")
     libs = _compose.load(_compose.KERNEL_LIBS, chk)
-    _compose.obligations(chk, "C03", libs, own_drivers=["shape", "shapespec"])
+    _compose.obligations(chk, "C03", libs, own_drivers=["shape", "shapespec", "funcs"])
     for lib in libs:
         _compose.run_lib(lib, chk, "C03")
     from props import C09 as _c09
@@ -16,5 +16,11 @@ def run(chk):
     for f in _compose.load(["_funcs"], chk):
         if hasattr(f, "run_metamorphic"):
             f.run_metamorphic(chk)
+        if hasattr(f, "sce_program"):
+            # result batch of a binary function with one shared (batch-1) operand: the announced shape, the computed
+            # tensor and the consumers that read the batch (batch::mean, batch::split) must agree on both APIs
+            progs = [f.sce_program(chk.rng, B) for B in (2, 3) for _ in range(2 if chk.tier == "quick" else 12)]
+            found, dis = f.run_programs(chk, progs)
+            f.report_found(chk, found, dis, prop="C03", keyprefix="funcs")
     _compose.finish(chk)
     chk.trusted += ["kernel models are hand-written and tied to the code by the correspondence run"]
